@@ -331,10 +331,11 @@ impl ExpansionPiece {
         }
     }
 
-    const fn len(&self) -> usize {
+    /// Length in characters (what `${#v}` reports and substring offsets count), not bytes.
+    fn len(&self) -> usize {
         match self {
-            Self::Unsplittable(s) => s.len(),
-            Self::Splittable(s) => s.len(),
+            Self::Unsplittable(s) => s.chars().count(),
+            Self::Splittable(s) => s.chars().count(),
         }
     }
 
